@@ -2,7 +2,7 @@
    aggregate of exactly the sub-stream routed to it (each row with the weight the node gives it).
    Every arithmetic instance; no arithmetic laws are used. *)
 From Coq Require Import ZArith List String Bool Lia Arith.
-From Hgm Require Import NumOps Agg Ops AggInd.
+From Hgm Require Import NumOps Agg Ops AggInd SL KeyFacts.
 Import ListNotations.
 Local Open Scope num_scope.
 
@@ -130,5 +130,109 @@ Section Denote.
         destruct (pos w); cbn [map fold_left]; reflexivity.
       + intros i c Hc. rewrite (C' i _ (C1 i c Hc)). f_equal.
         rewrite L1. unfold sub_stream. cbn [flat_map]. rewrite fills_app'. reflexivity.
+  Qed.
+
+  (* ---- sparse children (SparselyBin, Categorize): by key ---- *)
+  Notation klookup := (sl_lookup (V:=agg) key_cmp).
+  Notation ksorted := (sorted (V:=agg) key_cmp).
+
+  (* the row as seen by the sparse child under key kk *)
+  Definition row_key (k : nodekind N) (q : quantity N) (n : nat) (kk : key) (dw : datum N * T) : stream :=
+    let '(d, w) := dw in
+    if pos w then
+      match (if has_quantity k then qfn q d else QV VNone) with
+      | QV v =>
+          match route k n v w with
+          | RTo _ (Some (k1, w')) => match key_cmp kk k1 with Eq => [(d, w')] | _ => [] end
+          | _ => []
+          end
+      | QRaise => []
+      end
+    else [].
+
+  Definition sub_key (k : nodekind N) (q : quantity N) (n : nat) (kk : key) (s : stream) : stream :=
+    flat_map (row_key k q n kk) s.
+
+  (* a child is created from the template when its first row arrives *)
+  Definition grown (tm : option agg) (c0 : option agg) (rows : stream) : option agg :=
+    match c0, rows, tm with
+    | Some c, _, _ => Some (fills c rows)
+    | None, [], _ => None
+    | None, _, Some t => Some (fills (zero t) rows)
+    | None, _, None => None
+    end.
+
+  Lemma fill_node_step_sp k q e fx sp tm ct d w a' :
+    ksorted sp ->
+    fill (Node k q e fx sp tm ct) d w = (a', Done) ->
+    exists e' fx' sp',
+      a' = Node k q e' fx' sp' tm ct /\ List.length fx' = List.length fx /\ ksorted sp' /\
+      forall kk, klookup kk sp' = grown tm (klookup kk sp) (row_key k q (List.length fx) kk (d, w)).
+  Proof.
+    intro S. rewrite fill_Node. unfold row_key. destruct (pos w) eqn:P; cbn [negb].
+    2:{ intro E. inversion E; subst. exists e, fx, sp. repeat split; auto.
+        intro kk. unfold grown. destruct (klookup kk sp); reflexivity. }
+    destruct (if has_quantity k then qfn q d else QV VNone) as [v|]; [|discriminate].
+    destruct (route k (List.length fx) v w) as [|ws sk]; [discriminate|].
+    destruct (fill_list (fun c w' => fill c d w') (fun c => c) ws fx) as [fx' o1] eqn:Ef.
+    destruct o1; [|discriminate].
+    destruct (fill_list_nth _ fx ws fx' Ef) as [Hl _].
+    destruct sk as [[key w']|].
+    - destruct (klookup key sp) as [c0|] eqn:L0.
+      + destruct (fill c0 d w') as [c' o] eqn:Ec. destruct o; [|discriminate].
+        intro E. inversion E; subst. do 3 eexists. repeat split; eauto.
+        * apply (sorted_upd key_cmp key_cmp_antisym key_cmp_trans). exact S.
+        * intro kk. rewrite (lookup_upd key_cmp key_cmp_eq key_cmp_antisym key_cmp_trans) by exact S.
+          destruct (key_cmp kk key) eqn:C.
+          -- apply key_cmp_eq in C. subst kk. rewrite L0. unfold grown, fills. cbn [fold_left fst snd].
+             rewrite Ec. reflexivity.
+          -- unfold grown. destruct (klookup kk sp); reflexivity.
+          -- unfold grown. destruct (klookup kk sp); reflexivity.
+      + destruct tm as [t|]; [|discriminate].
+        destruct (fill (zero t) d w') as [c' o] eqn:Ec. destruct o; [|discriminate].
+        intro E. inversion E; subst. do 3 eexists. repeat split; eauto.
+        * apply (sorted_upd key_cmp key_cmp_antisym key_cmp_trans). exact S.
+        * intro kk. rewrite (lookup_upd key_cmp key_cmp_eq key_cmp_antisym key_cmp_trans) by exact S.
+          destruct (key_cmp kk key) eqn:C.
+          -- apply key_cmp_eq in C. subst kk. rewrite L0. unfold grown, fills. cbn [fold_left fst snd].
+             rewrite Ec. reflexivity.
+          -- unfold grown. destruct (klookup kk sp); reflexivity.
+          -- unfold grown. destruct (klookup kk sp); reflexivity.
+    - intro E. inversion E; subst. do 3 eexists. repeat split; eauto.
+      intro kk. unfold grown. destruct (klookup kk sp); reflexivity.
+  Qed.
+
+  Lemma grown_app tm c0 r1 r2 : grown tm (grown tm c0 r1) r2 = grown tm c0 (r1 ++ r2).
+  Proof.
+    unfold grown. destruct c0 as [c|].
+    - rewrite fills_app'. reflexivity.
+    - destruct r1 as [|x r1]; cbn [app].
+      + destruct r2; destruct tm; reflexivity.
+      + destruct tm as [t|]; [|destruct r2; reflexivity].
+        change (x :: r1 ++ r2) with ((x :: r1) ++ r2). rewrite fills_app'. reflexivity.
+  Qed.
+
+  (* after any stream none of whose fills raises, the sparse child under every key holds the
+     aggregate of exactly the rows routed to that key (the rows of that bin index / category), grown
+     from the template when the first such row arrives *)
+  Theorem fills_sparse k q (s : stream) : forall e fx sp tm ct,
+    ksorted sp -> all_done (Node k q e fx sp tm ct) s ->
+    exists e' fx' sp',
+      fills (Node k q e fx sp tm ct) s = Node k q e' fx' sp' tm ct /\
+      List.length fx' = List.length fx /\ ksorted sp' /\
+      forall kk, klookup kk sp' = grown tm (klookup kk sp) (sub_key k q (List.length fx) kk s).
+  Proof.
+    induction s as [|[d w] s IH]; intros e fx sp tm ct S Hd.
+    - exists e, fx, sp. repeat split; auto. intro kk. unfold grown, sub_key. cbn [flat_map].
+      destruct (klookup kk sp); reflexivity.
+    - cbn [all_done] in Hd. destruct Hd as [H1 H2].
+      destruct (fill (Node k q e fx sp tm ct) d w) as [a1 o] eqn:E1. cbn [fst snd] in H1, H2. subst o.
+      destruct (fill_node_step_sp k q e fx sp tm ct d w a1 S E1) as (e1 & fx1 & sp1 & -> & L1 & S1 & C1).
+      destruct (IH e1 fx1 sp1 tm ct S1 H2) as (e' & fx' & sp' & Ef & L' & S' & C').
+      exists e', fx', sp'. split.
+      { change (fills (Node k q e fx sp tm ct) ((d, w) :: s))
+          with (fills (fst (fill (Node k q e fx sp tm ct) d w)) s). rewrite E1. exact Ef. }
+      split; [lia|]. split; [exact S'|].
+      intro kk. rewrite C', C1, L1. unfold sub_key. cbn [flat_map]. apply grown_app.
   Qed.
 End Denote.
